@@ -335,6 +335,10 @@ def dfagg_shape(df_tree):
             continue
         if _is_dict_delegation(s):      # the repair of C06/DataFrame.agg-dict-raises
             continue
+        if isinstance(s, ast.Assign) and len(s.targets) == 1 and dotted(s.targets[0]) == "self" \
+                and isinstance(s.value, ast.Call) and dotted(s.value.func) == "self.copy" \
+                and not s.value.args and not s.value.keywords:
+            continue                    # self = self.copy(): display names are recorded on a copy (no-op for the SQL built)
         if isinstance(s, ast.Expr) and isinstance(s.value, ast.Call) and dotted(s.value.func) == "self._update_display_name_mapping":
             continue
         raise Untranslatable("DataFrame.agg: unexpected statement " + type(s).__name__)
